@@ -55,6 +55,16 @@ TConfigure ==
   /\ Tag("C11.dispatch.configure", SetOf(Ev.active) = Active(ts'[Ev.tn]))
   /\ Adv
 
+\* The timeslot was configured for ANOTHER combination before (l1sched_configure_ts() on an
+\* existing timeslot resets it first): this trace knows nothing about that combination's layout,
+\* only that the configuration of its own combination afterwards starts from fresh channel states.
+TPreConfigure ==
+  /\ IsEv("configure") /\ Ev.cfg # T.cfg.want
+  /\ Tag("C11.guard.preconfigure", Ev.tn = T.cfg.tn /\ Ev.tn \in Tns /\ ts[Ev.tn].conf # "nolay" /\ Ev.rc = 0)
+  /\ ts' = [ts EXCEPT ![Ev.tn] = [conf |-> "other", cfg |-> Ev.cfg, lch |-> <<>>]]
+  /\ out' = Res("configure", Ev.tn, 0, NoBid, 0, <<>>, {})
+  /\ Adv
+
 TSet ==
   /\ IsEv("set")
   /\ Tag("C11.guard.set", Ev.tn \in Tns /\ ts[Ev.tn].conf = "ok" /\ Ev.chan_nr \in 0..255 /\ Ev.on \in {0, 1})
@@ -110,7 +120,7 @@ TProbe ==
   /\ Tag("C11.dispatch.probe", out'.rc = Ev.rc /\ out'.flags = Ev.flags)
   /\ Adv
 
-TNext == TNew \/ TConfigure \/ TSet \/ TAct \/ TDeact \/ TRx \/ TPull \/ TProbe
+TNext == TNew \/ TConfigure \/ TPreConfigure \/ TSet \/ TAct \/ TDeact \/ TRx \/ TPull \/ TProbe
 TSpec == TInit /\ [][TNext]_tvars
 Post == WriteVerdicts
 =============================================================================
